@@ -13,7 +13,7 @@ import (
 
 // procDispatch implements the helpers of the real-process checks:
 //
-//	hang <marker> [--ignore-int] [--for <duration>] [--ready <file>] [--exit <code>]
+//	hang <marker> [--ignore-int] [--reset-int] [--for <duration>] [--ready <file>] [--exit <code>]
 //	     stays alive (default 60s at most) so that the process table can be inspected; the marker in
 //	     argv identifies the run
 //	emit <specfile>   writes the chunks of a JSON spec [{"s":1|2,"d":"<base64>","p":<pause us>}] to stdout/stderr
@@ -60,6 +60,12 @@ func hang(args []string) {
 		switch args[i] {
 		case "--ignore-int":
 			signal.Ignore(syscall.SIGINT)
+		case "--reset-int":
+			// a background child of a non-interactive shell inherits SIGINT ignored; restore the default action
+			signal.Reset(syscall.SIGINT)
+			c := make(chan os.Signal, 1)
+			signal.Notify(c, syscall.SIGINT)
+			go func() { <-c; os.Exit(130) }()
 		case "--for":
 			i++
 			if d, err := time.ParseDuration(args[i]); err == nil {
